@@ -259,6 +259,8 @@ ALLOWED_MUT = [
     (r'^&mut (automaton|ahocorasick|packed::api)::(FindIter|FindOverlappingIter|StreamFindIter|StreamChunkIter)<', 'caller-owned iterator'),
     (r'^&mut [A-Z]$', 'generic caller-supplied reader / writer / closure'),
     (r'^&mut \{closure', 'closure environment on the caller stack'),
+    (r'^&mut (core::option::Option<)?(util::search::(Match|Span)|util::primitives::(StateID|PatternID|SmallIndex)|usize|u8|u32|u64|bool)>?$',
+     'a per-search value (cursor, state id, last match) on the stack of the calling search routine: these Copy types are never shared searcher state'),
 ]
 
 
